@@ -82,3 +82,52 @@ Check C11_numbersdirect_kill_keeps_acked.
 Print Assumptions C11_numbersdirect_kill_keeps_acked.
 Check C11_numbersdirect_kill_restart.
 Print Assumptions C11_numbersdirect_kill_restart.
+
+Require Import FL.Flw.NumCleanupNames FL.Flw.NumCleanupStep FL.Flw.NumCleanupRun FL.Flw.NumCleanupKillDir FL.Flw.NumCleanupKill FL.Flw.NumCleanupKillRestart.
+(* Numbers naming WITH a cleanup strategy (KeepLogFiles n: klim = (n, 0); KeepCompressedFiles m: (0, m); both: (n, m)), cleanup in the
+   logging thread, direct mode, ANY history and ANY kill point - the kill points inside the cleanup included (remove_file; in
+   compress_file: create archive, copy, finish, remove original).  What the killed process leaves, read as the reader does (kill_view:
+   files by number, archives decompressed, an archive NEXT TO its original is ignored - it is either an unfinished gzip stream or holds
+   the same content -, an unfinished archive never stands alone), is a TAIL of the acknowledged records that contains everything a
+   completed cleanup would have kept (lo <= length closed - (n + m)); nothing is there twice.
+   Side conditions as in C07: the suffix does not end with .gz, fewer than 100000 operations. *)
+Theorem C11_numbers_cleanup_kill_keeps_acked c crit k n m t0 off ops1 kp ops2 :
+  numkcfg c crit k -> klim k = Some (n, m) -> c_cap c = None -> sfx_ok (c_spec c) ->
+  Forall basic_op ops1 -> Forall basic_op ops2 ->
+  (N.of_nat (S (length ops1 + length ops2)) <= 100000)%N ->
+  let x1 := fst (run (sys0 t0 off) (OStart c :: ops1 ++ [OSetKill kp])) in
+  let xe := fst (run (sys0 t0 off) (OStart c :: ops1 ++ [OSetKill kp] ++ ops2 ++ [OCrash])) in
+  exists closed ocur lo,
+    kill_view c (wfs (s_w xe)) closed ocur lo
+    /\ concat closed ++ ocb ocur = written ops1 ++ acked x1 ops2
+    /\ (lo <= length closed - (n + m))%nat
+    /\ written ops1 ++ acked x1 ops2 = concat (firstn lo closed) ++ kv_stream closed ocur lo.
+Proof. exact (numbers_cleanup_kill_keeps_acked c crit k n m t0 off ops1 kp ops2). Qed.
+
+(* ... and a new writer with the same configuration on that directory succeeds in every operation, and leaves a tail of
+   acknowledged ++ own records (as long as the limits allow); with its first record it repairs the leftovers (the archive of an
+   interrupted compression is removed, the original compressed anew if the limits say so): the directory then has exactly the shape
+   that a run without kill leaves (kreader_view).  pre: what is missing at the old end beyond `closed` - empty unless both limits are 0 *)
+Theorem C11_numbers_cleanup_kill_restart c crit k n m t0 off ops1 kp ops2 ops3 :
+  numkcfg c crit k -> klim k = Some (n, m) -> c_cap c = None -> sfx_ok (c_spec c) ->
+  Forall basic_op ops1 -> Forall basic_op ops2 -> Forall basic_op ops3 ->
+  (N.of_nat (length ops1 + length ops2 + length ops3 + 3) <= 100000)%N ->
+  let x1 := fst (run (sys0 t0 off) (OStart c :: ops1 ++ [OSetKill kp])) in
+  let xk := fst (run (sys0 t0 off) (OStart c :: ops1 ++ [OSetKill kp] ++ ops2 ++ [OCrash])) in
+  let r2 := run xk (OStart c :: ops3 ++ [OStop]) in
+  Forall obs_ok (snd r2)
+  /\ exists pre closed ocur lo,
+       kill_view c (wfs (s_w (fst r2))) closed ocur lo
+       /\ written ops1 ++ acked x1 ops2 ++ written ops3 = pre ++ concat closed ++ ocb ocur
+       /\ written ops1 ++ acked x1 ops2 ++ written ops3 = (pre ++ concat (firstn lo closed)) ++ kv_stream closed ocur lo
+       /\ (lo <= length closed - (n + m))%nat
+       /\ (pre = [] \/ (n + m)%nat = 0%nat)
+       /\ (existsb is_wr ops3 = true ->
+             exists cu, ocur = Some cu /\ lo = (length closed - (n + m))%nat
+               /\ kreader_view c (wfs (s_w (fst r2))) closed cu lo (length closed - n)).
+Proof. exact (numbers_cleanup_kill_restart c crit k n m t0 off ops1 kp ops2 ops3). Qed.
+
+Check C11_numbers_cleanup_kill_keeps_acked.
+Print Assumptions C11_numbers_cleanup_kill_keeps_acked.
+Check C11_numbers_cleanup_kill_restart.
+Print Assumptions C11_numbers_cleanup_kill_restart.
